@@ -42,4 +42,21 @@ CLAIMS = {
                    'into inputs_ register out-edges.',
         'not_decided': 'the for-all-schedules ordering itself (an induction over run-time states that is not mechanised).',
     },
+    'C11': {
+        'design': '5.11',
+        'technique': 'path-sensitive RejectIf guards + error discipline + splice/loop consistency + who-may-call over clang CFG facts',
+        'decides': 'no failure edge of a fallible call in the dyndep parser/loader reaches a success return and no '
+                   'pointer is returned as bool; each documented rejection (missing/unsupported version, unknown '
+                   'or duplicate statement, explicit outputs/inputs, rule name, order-only inputs, foreign '
+                   'binding, empty path, edge not mentioned, extra entry, output already produced, dyndep not an '
+                   'input) has a branch whose rejecting side cannot reach success; UpdateEdge splices inputs into '
+                   'the implicit range and outputs at the end with matching counters and registers in-/out-edges '
+                   'for every spliced node; the pending flag is set only by the manifest parser and cleared at '
+                   'the loader entry; scan-time loads happen only behind the pending test and never while the '
+                   'producer still has to run; at build time every output of a finished edge is examined, the '
+                   'plan walk skips an edge only if it is ready or not in the plan; parsed paths are '
+                   'canonicalised before interning.',
+        'not_decided': 'equivalence with the manifest that has the information written in; schedule-dependent '
+                       're-want logic in RefreshDyndepDependents.',
+    },
 }
